@@ -392,7 +392,12 @@ func runC08(c *eng.Ctx) {
 				}
 				if okRPC && reqV != nil && local.Instr != nil && eng.CallArgs(local.Instr.(*ssa.Call))[0] == reqV {
 					d := p.Desc(reqV)
-					if strings.HasSuffix(d, "AckIndex()+1)") || strings.HasSuffix(d, ".acknowledgedSeq+1)") || strings.Contains(d, "AcknowledgedSeq()+1)") {
+					// the same through a helper that is handed the leader's ack: judged on the argument IsReady passes
+					base, k1 := eng.SplitConstOffset(eng.Unwrap(reqV))
+					base = eng.Unwrap(eng.UpParamVia(f, resetRPC[0], base))
+					bn := calleeName(base)
+					if strings.HasSuffix(d, "AckIndex()+1)") || strings.HasSuffix(d, ".acknowledgedSeq+1)") || strings.Contains(d, "AcknowledgedSeq()+1)") ||
+						k1 == 1 && (bn == "AckIndex" || bn == "AcknowledgedSeq") {
 						viaReset = true
 					} else {
 						detail = "both sides are reset to " + d + ", which is not the leader's ack+1 (the first position the follower lacks and the leader still holds)"
